@@ -329,7 +329,7 @@ pub fn check_c17(ex: &mut Exec, at: usize, t: &SemTarget) {
     if t.files.contains_key("fb/main.oal") {
         ex.stats.probe("module_shared_by_two_folders");
     }
-    if ex.peer.server.state.is_stale {
+    if ex.peer.server.is_stale() {
         ex.stats.probe("request_while_stale");
     }
     let world = ex.world;
@@ -522,7 +522,7 @@ pub fn check_c18(ex: &mut Exec, at: usize, t: &SemTarget) {
         return;
     }
     ex.stats.count("semantic_checkpoints", 1);
-    if ex.peer.server.state.is_stale {
+    if ex.peer.server.is_stale() {
         ex.stats.probe("request_while_stale");
     }
     let world = ex.world;
